@@ -1,4 +1,5 @@
 import ast
+import copy
 from typing import Any, Dict, List, Optional, Tuple
 
 from func_adl.ast.func_adl_ast_utils import FuncADLNodeTransformer
@@ -69,6 +70,27 @@ def remove_empty_metadata(a: ast.AST) -> ast.AST:
     """
 
     class _cleaner(ast.NodeTransformer):
+        def generic_visit(self, node: ast.AST) -> ast.AST:
+            """Copy-on-write version of `NodeTransformer.generic_visit`: a node below which
+            something changed is replaced by a shallow copy, so the ast we were given (which is
+            shared with the `ObjectStream` objects it came from) is left as it was."""
+            changes = {}
+            for field, old_value in ast.iter_fields(node):
+                if isinstance(old_value, list):
+                    new_list = [self.visit(v) if isinstance(v, ast.AST) else v for v in old_value]
+                    if any(n is not o for n, o in zip(new_list, old_value)):
+                        changes[field] = new_list
+                elif isinstance(old_value, ast.AST):
+                    new_value = self.visit(old_value)
+                    if new_value is not old_value:
+                        changes[field] = new_value
+            if len(changes) == 0:
+                return node
+            new_node = copy.copy(node)
+            for field, new_value in changes.items():
+                setattr(new_node, field, new_value)
+            return new_node
+
         def visit_Call(self, node: ast.Call):
             n = self.generic_visit(node)
             assert isinstance(n, ast.Call)
